@@ -25,8 +25,8 @@ theorem never_early (F : TOps) (s : St) (now : Nat) (h : (check F s now).2 = .ti
 /-- … for every float implementation, first-interval constant, limit, start time, clock sequence
 and number of instructions executed before: the `n`-th check of an entry started at `t0` reports a
 timeout only if the clock has advanced by at least `limit`. -/
-theorem never_early_run (F : TOps) (rate : UInt64) (limit t0 : Nat) (clk : Nat → Nat) (n : Nat)
-    (h : pollAt F clk (new F rate limit t0) n = .timeout) : t0 + limit ≤ clk n := by
+theorem never_early_run (F : TOps) (rate cap : UInt64) (limit t0 : Nat) (clk : Nat → Nat) (n : Nat)
+    (h : pollAt F clk (new F rate cap limit t0) n = .timeout) : t0 + limit ≤ clk n := by
   have := never_early F _ _ h
   rw [runN_deadline] at this
   exact this
@@ -158,17 +158,17 @@ are expensive (F-C08-2): see `first_interval_unobserved`. Wall-clock behaviour i
 
 /-- The first check that reports the timeout happens no later than
 `max (t0 + (I0 + 1)·tmax, deadline + (limit/10)·(tmax/tmin − 1) + 2·tmax)`. -/
-theorem bounded_slack (F : TOps) (rate : UInt64) (limit t0 tmin tmax : Nat) (clk : Nat → Nat)
+theorem bounded_slack (F : TOps) (rate cap : UInt64) (limit t0 tmin tmax : Nat) (clk : Nat → Nat)
     (hc : Costs clk t0 tmin tmax)
-    (hs : ∀ j, pollAt F clk (new F rate limit t0) j = .ok →
-      UpdateSound F (runN F clk j (new F rate limit t0) 0) (clk j))
+    (hs : ∀ j, pollAt F clk (new F rate cap limit t0) j = .ok →
+      UpdateSound F (runN F clk j (new F rate cap limit t0) 0) (clk j))
     (n : Nat)
-    (hfirst : ∀ j, j < n → pollAt F clk (new F rate limit t0) j ≠ .timeout)
-    (hn : pollAt F clk (new F rate limit t0) n = .timeout) :
-    clk n ≤ t0 + ((new F rate limit t0).intervalInstr + 1) * tmax ∨
+    (hfirst : ∀ j, j < n → pollAt F clk (new F rate cap limit t0) j ≠ .timeout)
+    (hn : pollAt F clk (new F rate cap limit t0) n = .timeout) :
+    clk n ≤ t0 + ((new F rate cap limit t0).intervalInstr + 1) * tmax ∨
     clk n * tmin ≤ (t0 + limit) * tmin + (limit / 10) * (tmax - tmin) + 2 * tmin * tmax := by
-  have hinv := inv_run F rate limit t0 tmin tmax clk hc hs n hfirst
-  generalize hS : runN F clk n (new F rate limit t0) 0 = s at hinv
+  have hinv := inv_run F rate cap limit t0 tmin tmax clk hc hs n hfirst
+  generalize hS : runN F clk n (new F rate cap limit t0) 0 = s at hinv
   have hn' : (check F s (clk n)).2 = .timeout := by rw [← hS]; exact hn
   have heq : s.sinceLast = s.intervalInstr := by
     rcases check_cases F s (clk n) with ⟨_, h2⟩ | ⟨h1, _, _⟩ | ⟨_, _, h2⟩
@@ -187,36 +187,47 @@ theorem bounded_slack (F : TOps) (rate : UInt64) (limit t0 tmin tmax : Nat) (clk
 /-- Liveness + `never_early` + `bounded_slack` together: under the cost and rounding hypotheses some
 check reports the timeout; the first one that does so reads a clock value at or past the deadline
 and within the bound. -/
-theorem detected_within_slack (F : TOps) (rate : UInt64) (limit t0 tmin tmax : Nat) (clk : Nat → Nat)
+theorem detected_within_slack (F : TOps) (rate cap : UInt64) (limit t0 tmin tmax : Nat) (clk : Nat → Nat)
     (hc : Costs clk t0 tmin tmax)
-    (hs : ∀ j, pollAt F clk (new F rate limit t0) j = .ok →
-      UpdateSound F (runN F clk j (new F rate limit t0) 0) (clk j)) :
-    ∃ n, pollAt F clk (new F rate limit t0) n = .timeout ∧
-      (∀ j, j < n → pollAt F clk (new F rate limit t0) j ≠ .timeout) ∧
+    (hs : ∀ j, pollAt F clk (new F rate cap limit t0) j = .ok →
+      UpdateSound F (runN F clk j (new F rate cap limit t0) 0) (clk j)) :
+    ∃ n, pollAt F clk (new F rate cap limit t0) n = .timeout ∧
+      (∀ j, j < n → pollAt F clk (new F rate cap limit t0) j ≠ .timeout) ∧
       t0 + limit ≤ clk n ∧
-      (clk n ≤ t0 + ((new F rate limit t0).intervalInstr + 1) * tmax ∨
+      (clk n ≤ t0 + ((new F rate cap limit t0).intervalInstr + 1) * tmax ∨
        clk n * tmin ≤ (t0 + limit) * tmin + (limit / 10) * (tmax - tmin) + 2 * tmin * tmax) := by
   have hlow := clk_lower clk t0 tmin tmax hc
-  obtain ⟨n1, _, _, hn1⟩ := eventually_detected F clk (new F rate limit t0) limit (by simp [new])
+  obtain ⟨n1, _, _, hn1⟩ := eventually_detected F clk (new F rate cap limit t0) limit (by simp [new])
     (fun n hn => by have := hlow n; simp [new]; omega)
-  obtain ⟨n, _, hn, hmin⟩ := least_of_exists (fun k => pollAt F clk (new F rate limit t0) k = .timeout) n1 hn1
-  exact ⟨n, hn, hmin, never_early_run F rate limit t0 clk n hn,
-    bounded_slack F rate limit t0 tmin tmax clk hc hs n hmin hn⟩
+  obtain ⟨n, _, hn, hmin⟩ := least_of_exists (fun k => pollAt F clk (new F rate cap limit t0) k = .timeout) n1 hn1
+  exact ⟨n, hn, hmin, never_early_run F rate cap limit t0 clk n hn,
+    bounded_slack F rate cap limit t0 tmin tmax clk hc hs n hmin hn⟩
 
 /-- The first `interval_instructions` checks of an entry never read the clock — whatever the clock
 says, in particular however far past the deadline it is. Every `execute_instructions` invocation
 starts with such a blind window of its own (`new` is called per entry, with deadline `now + limit`):
 the model-level content of F-C08-2. -/
-theorem first_interval_unobserved (F : TOps) (rate : UInt64) (limit t0 : Nat) (clk : Nat → Nat) (n : Nat)
-    (hn : n < (new F rate limit t0).intervalInstr) :
-    pollAt F clk (new F rate limit t0) n = .skip := by
-  have h := (poll_gap F clk (new F rate limit t0) 0 (by simp [new])).1 n (by simpa [new] using hn)
+theorem first_interval_unobserved (F : TOps) (rate cap : UInt64) (limit t0 : Nat) (clk : Nat → Nat) (n : Nat)
+    (hn : n < (new F rate cap limit t0).intervalInstr) :
+    pollAt F clk (new F rate cap limit t0) n = .skip := by
+  have h := (poll_gap F clk (new F rate cap limit t0) 0 (by simp [new])).1 n (by simpa [new] using hn)
   simpa [pollAt] using h
 
+/-- the first interval is the capped baseline, exactly as `new` computes it: `min(rate · limit/10 s, cap)`
+cast to `usize` (`cap = 100.0` since 0c1b674; before, the uncapped baseline made the first clock
+read of a loop of expensive instructions arbitrarily late: F-C08-6) -/
+theorem first_interval_formula (F : TOps) (rate cap : UInt64) (limit t0 : Nat) :
+    (new F rate cap limit t0).intervalInstr =
+      asUsize F (fmin F (F.mul rate (secsF F (limit / 10))) cap) ∧
+    (new F rate cap limit t0).intervalInstr ≤ usizeMax := by
+  constructor
+  · rfl
+  · simp [new, asUsize]; omega
+
 /-- a nested entry is armed from its own start time: its deadline ignores the enclosing entry's -/
-theorem rearmed_per_entry (F : TOps) (rate : UInt64) (limit tOuter tInner : Nat) :
-    (new F rate limit tInner).deadline = tInner + limit ∧
-    (new F rate limit tInner).deadline = (new F rate limit tOuter).deadline + (tInner - tOuter) ∨
+theorem rearmed_per_entry (F : TOps) (rate cap : UInt64) (limit tOuter tInner : Nat) :
+    (new F rate cap limit tInner).deadline = tInner + limit ∧
+    (new F rate cap limit tInner).deadline = (new F rate cap limit tOuter).deadline + (tInner - tOuter) ∨
       tInner < tOuter := by
   by_cases h : tInner < tOuter
   · exact Or.inr h
@@ -230,9 +241,9 @@ produce interval 0, a clock ticking every 3 units): the conclusion is then a con
 example : ∃ n, pollAt ⟨fun _ => 0, fun _ _ => 0, fun _ _ => 0, fun _ _ => 0, fun _ _ => false,
       fun _ => false, fun _ => 0⟩ (fun j => 10 + 3 * (j + 1))
       (new ⟨fun _ => 0, fun _ _ => 0, fun _ _ => 0, fun _ _ => 0, fun _ _ => false,
-      fun _ => false, fun _ => 0⟩ 0 20 10) n = .timeout ∧ 10 + 20 ≤ (fun j => 10 + 3 * (j + 1)) n := by
+      fun _ => false, fun _ => 0⟩ 0 0 20 10) n = .timeout ∧ 10 + 20 ≤ (fun j => 10 + 3 * (j + 1)) n := by
   obtain ⟨n, h1, _, h3, _⟩ := detected_within_slack ⟨fun _ => 0, fun _ _ => 0, fun _ _ => 0, fun _ _ => 0,
-    fun _ _ => false, fun _ => false, fun _ => 0⟩ 0 20 10 3 3 (fun j => 10 + 3 * (j + 1))
+    fun _ _ => false, fun _ => false, fun _ => 0⟩ 0 0 20 10 3 3 (fun j => 10 + 3 * (j + 1))
     ⟨by decide, by decide, by simp, by simp, fun i => by omega, fun i => by omega⟩
     (fun j _ => by simp [UpdateSound, nextInterval, asUsize])
   exact ⟨n, h1, h3⟩
